@@ -445,6 +445,59 @@ def limit_fn(drv):
     return f.__name__
 
 
+def crosshair_unit(budget):
+    '''Second engine on the minfloor / maxceil kernel: CrossHair on xh/limit_best_contracts.py.'''
+    import os
+    import re
+    import subprocess
+    import sys
+    import time
+    from engine.main import REPO
+    here = os.path.dirname(os.path.dirname(os.path.abspath(__file__)))
+    exe = os.path.join(os.path.dirname(sys.executable), 'crosshair')
+    out = dict(confirmed=0, refuted_twin=False, bad=[], inconclusive=[], available=os.path.exists(exe), seconds=0.0)
+    if not out['available']:
+        out['inconclusive'].append('crosshair is not installed in the check environment')
+        return out
+    env = dict(os.environ, PYTHONPATH=f'{REPO}{os.pathsep}{here}')
+    t0 = time.time()
+    r = subprocess.run([exe, 'check', '--report_all', '--per_condition_timeout', '30',
+                        os.path.join(here, 'xh', 'limit_best_contracts.py')],
+                       env=env, capture_output=True, text=True, timeout=max(120, budget))
+    out['seconds'] = round(time.time() - t0, 1)
+    for line in (r.stdout + r.stderr).splitlines():
+        m = re.match(r'.*?:(\d+): (info|error): (.*)$', line)
+        if not m:
+            continue
+        kind, msg = m.group(2), m.group(3)
+        if kind == 'info' and msg.startswith('Confirmed over all paths'):
+            out['confirmed'] += 1
+        elif kind == 'error' and '_reach_' in msg:
+            out['refuted_twin'] = True
+        elif kind == 'error':
+            call = re.search(r'when calling (\w+\(.*\))(?: \(which|$)', msg)
+            out['bad'].append(dict(message=msg, call=call.group(1) if call else None))
+        else:
+            out['inconclusive'].append(f'line {m.group(1)}: {msg}')
+    return out
+
+
+def crosshair_replay(call):
+    'evaluate the reported call on the real function and re-check the postconditions in plain Python'
+    import inspect
+    import re
+    from xh import limit_best_contracts as M
+    m = re.match(r'(\w+)\((.*)\)$', call)
+    fn = getattr(M, m.group(1))
+    args = eval('(' + m.group(2) + ',)', {})
+    ret = fn(*args)
+    env = dict(zip(inspect.signature(fn).parameters, args))
+    env['__return__'] = ret
+    posts = [ln.split('post:', 1)[1].strip() for ln in fn.__doc__.splitlines() if 'post:' in ln]
+    failed = [p_ for p_ in posts if not eval(p_, {'min': min, 'max': max, 'all': all, 'len': len}, env)]
+    return bool(failed), f'{call} returns {ret!r}; failed postconditions: {failed}'
+
+
 def limit_unit(arg):
     budget = arg
     drv = SymDriver()
@@ -468,10 +521,12 @@ def run(ctx):
     classical = [n for n in names if spec.logic_info(n)['classical']]
     with mp.Pool(ctx.jobs) as pool:
         ar_lim = pool.apply_async(limit_unit, (budget,))
+        ar_xh = pool.apply_async(crosshair_unit, (budget,))
         ar_id = [pool.apply_async(identity_unit, ((n, 3 if ctx.quick else 4, budget * 2),))
                  for n in (classical if thorough else ['CPL', 'CFOL', 'K', 'S5'])]
         results = pool.map(value_unit, [(n, thorough, budget) for n in names], chunksize=1)
         lim = ar_lim.get()
+        xh = ar_xh.get()
         ids = [a.get() for a in ar_id]
     paths = trans = queries = shapes = 0
     st_time = 0.0
@@ -520,8 +575,19 @@ def run(ctx):
     for b in lim['bad'][:2]:
         rep.violation(f'C08|limit_best|{b["error"][:70]}', f'{b["error"]} with {b["witness"]}',
                       dict(kind='limit', picks=b['picks'], witness=b['witness'], error=b['error']))
+    for b in xh['bad'][:3]:
+        rep.violation(f'C08|limit_best|crosshair|{(b["call"] or b["message"])[:60]}',
+                      f'CrossHair: {b["message"]}', dict(kind='crosshair', call=b['call'], message=b['message']))
+    for msg in xh['inconclusive']:
+        rep.inconclusive.append(f'minfloor/maxceil (CrossHair): {msg}')
+    if xh['available'] and not xh['inconclusive'] and not xh['refuted_twin']:
+        rep.harness_error('CrossHair did not refute the reachability twin _reach_minfloor (vacuous contracts?)')
     rep.coverage = dict(
         states=paths, transitions=trans, traces_validated_against_impl=0, samples=samples[:5],
+        second_engine=dict(tool='crosshair-tool', file='xh/limit_best_contracts.py',
+                           conditions_confirmed_over_all_paths=xh['confirmed'],
+                           reachability_twin_refuted=xh['refuted_twin'], seconds=xh['seconds'],
+                           bounds='lists of 1..4 integers, arbitrary limit; per-condition timeout 30 s'),
         sentence_shapes=shapes, identity_sample=ids[0]['sample'] if ids else None,
         bounds=dict(worlds=3 if thorough else 2, constants=3 if thorough else 2, depth=2,
                     frame_only=f'every initial relation on {4 if thorough else 3} worlds'
@@ -551,6 +617,10 @@ def replay(data):
     from pytableaux.logics import registry
     registry.import_all()
     kind = data['kind']
+    if kind == 'crosshair':
+        if not data.get('call'):
+            return False, 'no call to replay'
+        return crosshair_replay(data['call'])
     if kind == 'limit':
         drv = ReplayDriver(data['picks'], data['witness'])
         try:
